@@ -8,8 +8,19 @@
   stream only through these two operations and are written directly over the logical stream, so their results
   are schedule-independent by construction; the tie of that abstraction to the code is the C08 search
   (every entry point under one-byte, random-chunk and data-with-EOF readers).
+
+  The unbuffered consumers (Exif reader on a plain reader, callbacks handed an ISOBMFF box as io.Reader) see *short
+  reads*: `Read` (bufio.Reader.Read as written: buffered bytes first, otherwise ONE source read) may return any
+  non-empty prefix.  Proved here for all schedules: `io.ReadFull` over it returns exactly the first n bytes of the
+  logical stream (`C08_readFull_spec`); `Discard` removes exactly min(n, length) (`C08_discard_spec`); `io.ReadFull`
+  over `box.Read` (isobmff/box.go: the request is cut to the tightest enclosing box, every box of the chain is charged
+  what arrived) returns exactly the first min(n, limit) bytes and charges every box exactly that many
+  (`C08_box_readFull_spec`) — so two schedules give the same bytes, the same box bookkeeping and the same stream
+  afterwards (`C08_box_chunking_independent`).  Tie: `bufio.ops` correspondence against bufio.Reader, io.ReadFull and
+  the real box.Read through hook isobmff.VerifBoxChain.
 -/
 import Imeta.Model.Bufio
+import Imeta.Lemmas.BufioRead
 namespace Imeta.Bufio
 open Imeta
 
@@ -97,5 +108,71 @@ theorem C08_peek_chunking_independent (b1 b2 : Br) (n : Nat) (h : b1.logical = b
 /-- non-vacuity: a 10-byte stream delivered 1 byte at a time and delivered at once peek the same 4 bytes -/
 example : (peek { buf := [], src := { rest := [1,2,3,4,5,6,7,8,9,10], sched := [1,1,1,1,1,1,1,1,1,1] }, size := 16 } 4).1 =
           (peek { buf := [], src := { rest := [1,2,3,4,5,6,7,8,9,10], sched := [] }, size := 16 } 4).1 := by decide
+
+/-- **Discard is schedule-independent**: `Discard n` consumes exactly min(n, length) bytes of the logical stream. -/
+theorem C08_discard_spec (b : Br) (n : Nat) (hs : 0 < b.size) :
+    (discard (n + 1) b n).1 = min n b.logical.length ∧ (discard (n + 1) b n).2.logical = b.logical.drop n :=
+  let h := discard_spec (n + 1) b n (Nat.lt_succ_self n) hs
+  ⟨h.1, h.2.1⟩
+
+/-- **io.ReadFull over short reads**: whatever prefix each `Read` returns, `ReadFull n` yields the first n bytes of the
+logical stream (or all of it, with io.ErrUnexpectedEOF) and leaves the rest. -/
+theorem C08_readFull_spec (b : Br) (n : Nat) :
+    (readFull (n + 1) b n).1 = b.logical.take n ∧ (readFull (n + 1) b n).2.1 = decide (n ≤ b.logical.length) ∧
+    (readFull (n + 1) b n).2.2.logical = b.logical.drop n :=
+  readFull_spec (n + 1) b n (Nat.lt_succ_self n)
+
+theorem C08_readFull_chunking_independent (b1 b2 : Br) (n : Nat) (h : b1.logical = b2.logical) :
+    (readFull (n + 1) b1 n).1 = (readFull (n + 1) b2 n).1 ∧ (readFull (n + 1) b1 n).2.1 = (readFull (n + 1) b2 n).2.1 ∧
+    (readFull (n + 1) b1 n).2.2.logical = (readFull (n + 1) b2 n).2.2.logical := by
+  obtain ⟨a1, a2, a3⟩ := C08_readFull_spec b1 n
+  obtain ⟨c1, c2, c3⟩ := C08_readFull_spec b2 n
+  rw [a1, a2, a3, c1, c2, c3, h]
+  exact ⟨rfl, rfl, rfl⟩
+
+/-- one `Read` is a non-empty prefix of the logical stream, at most as long as asked for (the short read), and end of
+stream is reported only when nothing is left -/
+theorem C08_read_is_prefix (b b' : Br) (max : Nat) (hm : 0 < max) :
+    (∀ got, b.read max = (some got, b') → got ≠ [] ∧ got.length ≤ max ∧ got ++ b'.logical = b.logical) ∧
+    (b.read max = (none, b') → b.logical = []) :=
+  ⟨fun got h => let r := read_some b b' max got hm h; ⟨r.1, r.2.1, r.2.2.1⟩, fun h => (read_none b b' max h).1⟩
+
+/-- **io.ReadFull over box.Read** (`ls`: remaining length of the box and of every box around it, innermost first): the
+bytes are the first min(n, tightest remaining length) of the logical stream; it succeeds iff the boxes and the stream
+have n bytes; every box of the chain is charged exactly the bytes delivered; the stream continues right after them. -/
+theorem C08_box_readFull_spec (ls : List Nat) (b : Br) (n : Nat) :
+    (boxReadFull (n + 1) ls b n).1 = b.logical.take (min n (minAll ls)) ∧
+    (boxReadFull (n + 1) ls b n).2.1 = decide (n ≤ minAll ls ∧ n ≤ b.logical.length) ∧
+    (boxReadFull (n + 1) ls b n).2.2.1 = ls.map (· - (boxReadFull (n + 1) ls b n).1.length) ∧
+    (boxReadFull (n + 1) ls b n).2.2.2.logical = b.logical.drop (min n (minAll ls)) :=
+  boxReadFull_spec (n + 1) ls b n (Nat.lt_succ_self n)
+
+/-- the tightest remaining length is at most every box's (so no box of the chain is ever overdrawn) -/
+theorem C08_box_never_overdrawn (ls : List Nat) (b : Br) (n : Nat) :
+    ∀ x ∈ ls, (boxReadFull (n + 1) ls b n).1.length ≤ x := by
+  intro x hx
+  rw [(C08_box_readFull_spec ls b n).1, List.length_take]
+  have := minAll_le_mem ls x hx
+  omega
+
+theorem C08_box_chunking_independent (ls : List Nat) (b1 b2 : Br) (n : Nat) (h : b1.logical = b2.logical) :
+    (boxReadFull (n + 1) ls b1 n).1 = (boxReadFull (n + 1) ls b2 n).1 ∧
+    (boxReadFull (n + 1) ls b1 n).2.1 = (boxReadFull (n + 1) ls b2 n).2.1 ∧
+    (boxReadFull (n + 1) ls b1 n).2.2.1 = (boxReadFull (n + 1) ls b2 n).2.2.1 ∧
+    (boxReadFull (n + 1) ls b1 n).2.2.2.logical = (boxReadFull (n + 1) ls b2 n).2.2.2.logical := by
+  obtain ⟨a1, a2, a3, a4⟩ := C08_box_readFull_spec ls b1 n
+  obtain ⟨c1, c2, c3, c4⟩ := C08_box_readFull_spec ls b2 n
+  rw [a3, c3, a1, a2, a4, c1, c2, c4, h]
+  exact ⟨rfl, rfl, rfl, rfl⟩
+
+/-- non-vacuity: 10 bytes, a box with 6 left inside a box with 4 left; delivered one byte at a time with 2 buffered, or at
+once: ReadFull(8) yields the same 4 bytes, fails, and leaves the boxes at [2, 0] -/
+example : (boxReadFull 9 [6, 4] { buf := [1,2], src := { rest := [3,4,5,6,7,8,9,10], sched := [1,1,1,1,1,1,1,1] }, size := 16 } 8).1 = [1,2,3,4] ∧
+    (boxReadFull 9 [6, 4] { buf := [], src := { rest := [1,2,3,4,5,6,7,8,9,10], sched := [] }, size := 16 } 8).1 = [1,2,3,4] ∧
+    (boxReadFull 9 [6, 4] { buf := [1,2], src := { rest := [3,4,5,6,7,8,9,10], sched := [1,1,1,1,1,1,1,1] }, size := 16 } 8).2.1 = false ∧
+    (boxReadFull 9 [6, 4] { buf := [1,2], src := { rest := [3,4,5,6,7,8,9,10], sched := [1,1,1,1,1,1,1,1] }, size := 16 } 8).2.2.1 = [2, 0] := by decide
+
+/-- and a single Read really is short under a one-byte schedule -/
+example : (Br.read { buf := [], src := { rest := [1,2,3,4,5], sched := [1] }, size := 16 } 4).1 = some [1] := by decide
 
 end Imeta.Bufio
